@@ -870,8 +870,8 @@ fn main() {
     }
 
     ctx.set_rule(
-        "every zone of the universe (apex + <=K owners of U(d), labels {a,b,*}; kinds A, TXT, A+TXT, CNAME->{a.z.,a.a.z.}, NS, NS+glue, NS+DS; quick d=2,K<=2; \
-         thorough adds d=2,K=3 and d=3,K<=2 over 6 kinds) signed by the real nsec3_zone: quick (0,-) without opt-out and, for zones with an insecure delegation, (1,ab) with opt-out; \
+        "every zone of the universe (apex + <=K owners of U(d), labels {a,b,*}; kinds A, A+TXT, CNAME->a.z., NS, NS+glue, NS+DS [quick, d=2,K<=2]; thorough: + TXT, CNAME->a.a.z. for d=2,K<=2 \
+         and d=2,K=3, d=3,K<=2 over the 6 kinds) signed by the real nsec3_zone: quick (0,-) without opt-out and, for zones with an insecure delegation, (1,ab) with opt-out; \
          thorough both parameter sets with and without opt-out; x every qname of {apex, U(3), x.o., names below cuts} x qtype {A,TXT,DS,NS,CNAME} x claim {NXDOMAIN, NODATA, expansion of each \
          published wildcard RRset} x soa {apex, absent} x EVERY non-empty subset of the zone's NSEC3 records (>7 records: subsets of size <=3) -> verify_nsec3; \
          oracle: Secure => claim true in the zone (vref::denial::truth) and the subset is the RFC 5155 section 8 proof with opt-out only for DS (nsec3_proves). \
@@ -884,7 +884,8 @@ fn main() {
 
     let kinds8 = [Kind::A, Kind::Txt, Kind::ATxt, Kind::CnameA, Kind::CnameAA, Kind::Ns, Kind::NsGlue, Kind::NsDs];
     let kinds6 = [Kind::A, Kind::ATxt, Kind::CnameA, Kind::Ns, Kind::NsGlue, Kind::NsDs];
-    let mut specs: Vec<ZoneSpec> = vzone::family("z.", &vzone::universe(2), 2, &kinds8);
+    // quick: 6 kinds for d=2,K<=2 (about 40 s of CPU-bound work on 16 idle cores); thorough: all 8 kinds
+    let mut specs: Vec<ZoneSpec> = vzone::family("z.", &vzone::universe(2), 2, if thorough { &kinds8[..] } else { &kinds6[..] });
     if thorough {
         specs.extend(vzone::family("z.", &vzone::universe(2), 3, &kinds6).into_iter().filter(|s| s.owners.len() == 3));
         specs.extend(vzone::family("z.", &vzone::universe(3), 2, &kinds6).into_iter().filter(|s| s.owners.iter().any(|(o, _)| o.matches('.').count() == 4)));
